@@ -136,10 +136,14 @@ def rule_undefined_variable(ctx):
     prog = ctx.prog
     ctx.analysed("variables.Variables.inline_variables")
     n = 0
-    for tr in run_execute(prog, "SELECT", None):
-        if tr.hooks.parsed or tr.engine_sql:
-            continue
+    for tr in run_execute(prog, "SELECT", None, undefined_var=True):
         n += 1
+        if tr.hooks.parsed or tr.engine_sql:
+            ctx.ob("C07.e", "a statement with a residual $name is refused before parsing / executing", False, "fakesnow/cursor.py")
+            ctx.violation("C07.e", "cursor", "FakeSnowflakeCursor.execute", "residual $name reaches the parser/engine", "fakesnow/cursor.py",
+                          f"a statement that still contains an undefined $name is parsed ({tr.hooks.parsed}) / sent to the engine "
+                          f"({len(tr.engine_sql)} statements) instead of being refused first")
+            continue
         exc = tr.path.value if tr.path.outcome == "raise" else None
         msg = exc.kwargs.get("msg") if exc is not None else None
         txt = text_of(msg) if msg is not None else ""
